@@ -47,6 +47,15 @@ theorem ids_paired (input out : List Ev) (hin : NoFlowIn input) (h : runFlow inp
   intro e hf
   rcases hf with hf | hf <;> simp [hf]
 
+/-- corollary of `ids_paired`: every `f` event of the output has its `s` event (same id) in the output — so
+`placement`, stated from the `s` side, covers every flow event -/
+theorem f_has_s (input out : List Ev) (hin : NoFlowIn input) (h : runFlow input = .ok out) :
+    ∀ f ∈ out, f.ph = "f" → ∃ s ∈ out, s.ph = "s" ∧ s.id = f.id := by
+  intro f hf hph
+  obtain ⟨k, hk, hs, _, _⟩ := ids_paired input out hin h f hf (Or.inr hph)
+  obtain ⟨s, hs1, hs2, hs3⟩ := cS_pos.mp (by omega : 0 < cS k out)
+  exact ⟨s, hs1, hs2, by rw [hs3, hk]⟩
+
 /-- where a queued helper comes from: a slice `x` of the input whose derived keys are `q.h`, at `x`'s
 position, with `x`'s (positive) duration -/
 def SrcOf (input : List Ev) (q : Q) : Prop :=
